@@ -387,6 +387,33 @@ Definition pad_to (rj : bool) (n : Z) (s : list Z) : list Z :=
   let padding := repeat 32 (Z.to_nat (n - zlen t)) in
   if rj then padding ++ t else t ++ padding.
 
+(* Implementation._input_console: every typed value is converted (strings are stored in string space) and kept on
+   one evaluation stack - a collector root - until all of them have been assigned with set_variable *)
+Fixpoint input_read (vars : list lval) (typed : list inval) (st : state) : R unit :=
+  match vars, typed with
+  | l :: vars', w :: typed' =>
+      match w with
+      | IStr bs =>
+          if is_strname (lv_name l) then
+            doR (st1, p) <- store c st bs; input_read vars' typed' (push_obj st1 (OStr p))
+          else input_read vars' typed' (push_obj st (ONum 2 0))       (* not produced: would be ?Redo from start *)
+      | INum z => input_read vars' typed' (push_obj st (ONum 2 z))
+      end
+  | _, _ => retR st tt
+  end.
+
+(* for v in varlist: set_variable(name, indices, value); value i of k sits at position k-1-i of the stack (top first) *)
+Fixpoint input_assign (vars : list lval) (i k : nat) (st : state) : R unit :=
+  match vars with
+  | [] => retR st tt
+  | l :: vars' =>
+      if (i <? k)%nat then
+        let v := nth (k - 1 - i) (match stack st with fr :: _ => fr | [] => [] end) (ONum 0 0) in
+        doR (st1, _) <- set_variable st l v;
+        input_assign vars' (S i) k st1
+      else retR st tt
+  end.
+
 Definition exec (fuel : nat) (direct : bool) (s : stmt) (st : state) : R unit :=
   match s with
   | SLet l e =>
@@ -514,6 +541,11 @@ Definition exec (fuel : nat) (direct : bool) (s : stmt) (st : state) : R unit :=
           else if totmem st1 <? n then errR st1 7
           else retR (clear_all (set_totmem st1 n)) tt
       end
+  | SInput vars typed =>
+      finallyR
+        (doR (st1, _) <- input_read vars typed (push_frame st);
+         input_assign vars 0 (Nat.min (length vars) (length typed)) st1)
+        pop_frame
   | SDef f ps body =>
       if direct then errR st 12
       else
